@@ -6,6 +6,7 @@ import (
 	"fmt"
 	"os"
 	"path/filepath"
+	"strings"
 	"time"
 
 	"github.com/lidofinance/dc4bc/airgapped"
@@ -127,7 +128,11 @@ func c12RejectedThenRestart(c *Ctx, seed uint64) {
 func c12TwoRoundsInFlight(c *Ctx, seed uint64) {
 	n, t, victim := 2+int(seed%2), 2, 0
 	for _, step := range []string{OpDeals, OpResponses, OpMasterKey} {
-		for _, order := range []string{"A-then-B", "B-then-A"} {
+		for _, order := range []string{"A-then-B", "B-then-A", "A-then-B after the log of a finished rehearsal round was dropped"} {
+			rehearsal := strings.HasSuffix(order, "dropped")
+			if rehearsal && step != OpResponses {
+				continue
+			}
 			wit := map[string]interface{}{"family": "two rounds in flight on one machine, restart + one replay per round", "n": n, "t": t, "victim": victim, "restart_before_first": step, "replay_order": order, "case_seed": seed}
 			w, err := world.NewWorld(world.Options{N: n, T: t, Seed: seed})
 			if err != nil {
@@ -137,6 +142,21 @@ func c12TwoRoundsInFlight(c *Ctx, seed uint64) {
 			func() {
 				defer w.Close()
 				var ces [2]*Ceremony
+				rehearsalRound := ""
+				if rehearsal {
+					// a rehearsal round completed on the same machines before; its log is dropped later
+					// (drop_operations_log <round>) - the operator tidies up right before the restart
+					id, err := w.StartDKG(0, t, now().Add(-time.Minute))
+					if err != nil {
+						c.Inconclusive("two rounds in flight: rehearsal: %v", err)
+						return
+					}
+					if _, q := w.Run(world.RandomPolicy, 8000); !q || !(&Ceremony{W: w, N: n, T: t, Round: id}).AllIn(StIdle) {
+						c.Inconclusive("two rounds in flight: the rehearsal round does not finish")
+						return
+					}
+					rehearsalRound = id
+				}
 				for k := 0; k < 2; k++ {
 					id, err := w.StartDKG(k%n, t, now().Add(time.Duration(k)*time.Second))
 					if err != nil {
@@ -152,6 +172,12 @@ func c12TwoRoundsInFlight(c *Ctx, seed uint64) {
 						return nil, nil
 					}
 					fired = true
+					if rehearsalRound != "" {
+						if err := nd.Cold.DropOperationsLog(rehearsalRound); err != nil {
+							replayErrs = append(replayErrs, fmt.Sprintf("drop_operations_log %s: %v", trunc(rehearsalRound, 6), err))
+						}
+						c.Add("logs_of_a_finished_round_dropped_before_a_restart", 1)
+					}
 					first, second := ces[0].Round, ces[1].Round
 					if order == "B-then-A" {
 						first, second = second, first
